@@ -13,10 +13,12 @@ if [ -d driver ]; then
 fi
 echo "[setup] warming caches (CLI build, emission, MIR facts)"
 /usr/bin/python3 - <<'PY'
+import os
 import sys
 sys.path.insert(0, '.')
 from vlib.context import Context
-ctx = Context()
+# the quick tier with the seed the checks will be run with (the sampled enumerated rules depend on it)
+ctx = Context("quick", int(os.environ.get("VERIF_SEED", "0") or 0))
 ctx.programs()
 try:
     from vlib import props
